@@ -1,6 +1,7 @@
 import PybropsModel.Drv.C01
 import PybropsModel.Drv.C02
 import PybropsModel.Drv.C04
+import PybropsModel.Drv.C05
 import PybropsModel.Drv.C07
 import PybropsModel.Drv.C08
 import PybropsModel.Drv.C09
@@ -18,6 +19,7 @@ def allOps : List (String × J.Op) := List.flatten [
   Drv.C01.ops,
   Drv.C02.ops,
   Drv.C04.ops,
+  Drv.C05.ops,
   Drv.C07.ops,
   Drv.C08.ops,
   Drv.C09.ops,
